@@ -288,6 +288,25 @@ def _body_paths(check):
     check.guarded("BC-FIXPOINT", "euler", lambda: bc_fixpoint(check, proj))
     check.guarded("BC-FIXPOINT", "dirichlet", lambda: c16.bc_def_other(check, proj))
     check.guarded("NOZZLE-REST", "euler.nozzle", lambda: nozzle_rest(check, proj))
+    # ... as 0 * geomterm: the geometric factor must be FINITE for every section law, i.e. divide only by quantities that
+    # cannot vanish -- the section at the cell CENTRES and the cell width (a section may vanish on a boundary face: wedge A=x,
+    # cone A=x^2 with the axis on the first face).  Decided by equality with the reference formula (same obligation as C19
+    # NOZ-GEOM, clause G), whose only divisors are those two.
+    from . import c19
+
+    def _geom_finite():
+        n0_ = len(check.obs)
+        c19.noz_geom(check, proj)
+        check.obs[n0_:] = [o for o in check.obs[n0_:] if "initdisc" in o.construct and "geomterm" in o.detail]
+    check.guarded("NOZ-GEOM", "euler.nozzle.initdisc", _geom_finite)
+    # MUSCL on a uniform state evaluates every limiter at (0, 0): the value there must be DEFINED and zero (a ratio form a/b is
+    # 0/0 = NaN on exactly flat data) -- same obligations as C12 LIM-ZERO / LIM-DEFINED
+    from . import c12
+    from ..disc1d import LIMITERS
+    for ln_ in [n_ for n_ in LIMITERS if n_ in proj.module("xnum").functions]:
+        n0_ = len(check.obs)
+        check.guarded("LIM-AXIOM", "xnum." + ln_, lambda: c12.analyse(check, proj, ln_))
+        check.obs[n0_:] = [o for o in check.obs[n0_:] if o.rule in ("LIM-ZERO", "LIM-DEFINED", "LIM-AXIOM")]
     check.guarded("INTEG-FIX", "integration", lambda: integ_fix(check, proj))
     check.guarded("REST-DEFINED", "timestep", lambda: rest_defined(check, proj))
     # the finite-difference Jacobian at a state with an identically vanishing component
